@@ -340,3 +340,21 @@ def _delay_replay(m, ob):
 
 BUILDERS['DelayModel._create_random_value_from_runtime'] = _delay_replay
 BUILDERS['DelayModel.generate_delay'] = _delay_replay
+
+
+# ---------------------------------------------------------------------------------------------------- bounded simulation monitor
+def _simmon(m, ob):
+    """fallback for undecided obligations: small real simulations with the property's oracles (bounded, labelled so)"""
+    import re as _re
+    import simmon
+    mm = _re.search(r'property=(C\d\d)', ob)
+    prop = mm.group(1) if mm else None
+    res = simmon.explore({prop} if prop else None)
+    fails = [f for f in res['failures'] if f[0] in (prop, 'RUN')]
+    return dict(violated=bool(fails), bounded=True,
+                scope=f"{res['runs']} monitored simulations: {len(simmon.SCENARIOS)} observation plans x {len(simmon.WORKFLOWS)} workflow shapes x "
+                      f"{{queue, batch}} on 4 heterogeneous machines",
+                failures=len(fails), observed=[f"{f[1]}: {f[2]}" for f in fails[:5]])
+
+
+BUILDERS['__simmon__'] = _simmon
